@@ -252,7 +252,7 @@ def run(prop, tier, seed, replay=None):
                 raise vf.ToolError(f"fewer than 20 applicable '{kind}' damages (vacuous run)")
     # spread heavy events: sort by weight and deal round-robin into chunks
     order = sorted(range(len(events)), key=lambda i: -weight(events[i]))
-    nchunks = max(4, len(events) // 350 + 1)
+    nchunks = 4 if len(events) < 4000 else 8          # JVM start-up (5-20 s) dominates small chunks
     chunks = [[] for _ in range(nchunks)]
     for j, i in enumerate(order):
         chunks[j % nchunks].append(i)
